@@ -77,7 +77,10 @@ func mmdbV4Only(dbType string) []byte {
 
 func c17V4OnlyGeoIP() geoip.Database {
 	dir := vfix.WorkDir()
-	cc, asn := filepath.Join(dir, "c17-v4only-country.mmdb"), filepath.Join(dir, "c17-v4only-asn.mmdb")
+	// one pair of files per worker process: the readers map the files into memory, so a sibling shard that
+	// rewrites a shared file truncates it under a live mapping (SIGBUS in the library; seen when 16 shards started together)
+	cc := filepath.Join(dir, fmt.Sprintf("c17-v4only-country-%d.mmdb", os.Getpid()))
+	asn := filepath.Join(dir, fmt.Sprintf("c17-v4only-asn-%d.mmdb", os.Getpid()))
 	if err := os.WriteFile(cc, mmdbV4Only("GeoLite2-Country"), 0o644); err != nil {
 		vh.Fatal("%v", err)
 	}
@@ -91,6 +94,9 @@ func c17V4OnlyGeoIP() geoip.Database {
 	if c, err := db.CC(net.ParseIP("203.0.113.77")); err != nil {
 		vh.Fatal("IPv4 lookup in the IPv4-only database: %q %v", c, err)
 	}
+	// the mappings stay valid after the names are gone
+	_ = os.Remove(cc)
+	_ = os.Remove(asn)
 	return db
 }
 
